@@ -289,6 +289,20 @@ type chainState struct {
 	entries []string
 	target  string
 	prev    []string
+	specs   []*spec  // the calls of the history, in order
+	results []string // per call: the error kind, or "ok" / "ok:<digest>" (digest when created was fixed)
+	faulted bool
+}
+
+// resultToken: what a call returned, as far as it is a function of the call alone.
+func resultToken(sp *spec, desc ocispec.Descriptor, err error) string {
+	if err != nil {
+		return errKind(err)
+	}
+	if _, fixed := sp.Ann[createdKey(sp.Fn)]; fixed {
+		return "ok:" + string(desc.Digest)
+	}
+	return "ok"
 }
 
 var chain *chainState
@@ -299,9 +313,28 @@ func startChain(target string) {
 }
 
 func endChain() {
-	if chain != nil {
-		chain.cleanup()
-		chain = nil
+	if chain == nil {
+		return
+	}
+	c := chain
+	chain = nil
+	c.cleanup()
+	// order irrelevance: the same calls in reverse order on a fresh memory store return the same, call for call
+	if c.faulted || len(c.specs) < 2 {
+		return
+	}
+	run.Count("history_order_checked")
+	fresh := memory.New()
+	for i := len(c.specs) - 1; i >= 0; i-- {
+		sp := c.specs[i]
+		d, err := callPack(sp, pusherOnly{&recorder{inner: fresh, failAt: -1}})
+		if got := resultToken(sp, d, err); got != c.results[i] {
+			last := *c.specs[len(c.specs)-1]
+			last.Prev = c.prev[:len(c.prev)-1]
+			run.OracleFail(run.NewID(), "history-order-dependent",
+				fmt.Sprintf("call %d of a history (%s) returned %s; made in reverse order on an empty store it returns %s", i, sp.Fn, c.results[i], got),
+				map[string]string{"op": "K", "spec": specJSON(&last)})
+		}
 	}
 }
 
@@ -1063,6 +1096,8 @@ func packCase(sp *spec) {
 		}
 	}
 	rec := &recorder{inner: inner, failAt: sp.FailAt, faultErr: sp.FaultErr}
+	var packDesc ocispec.Descriptor
+	var packErr error
 	if chain != nil {
 		defer func() { // what this call stored is there for the next call of the history
 			for _, e := range rec.events {
@@ -1073,6 +1108,10 @@ func packCase(sp *spec) {
 			prev := *sp
 			prev.Prev = nil
 			chain.entries, chain.prev = storeEntries, append(chain.prev, specJSON(&prev))
+			chain.specs, chain.results = append(chain.specs, &prev), append(chain.results, resultToken(sp, packDesc, packErr))
+			if sp.FailAt >= 0 {
+				chain.faulted = true
+			}
 		}()
 	}
 	var p content.Pusher = pusherOnly{rec}
@@ -1081,6 +1120,7 @@ func packCase(sp *spec) {
 	}
 	t0 := time.Now()
 	desc, err, wedged := callPackWatched(sp, p)
+	packDesc, packErr = desc, err
 	t1 := time.Now()
 	if wedged {
 		// no call may block: a wedge is a finding with a replay, not a hung check
@@ -1207,6 +1247,9 @@ func packCase(sp *spec) {
 	}
 	if err == nil || len(rec.events) > 0 {
 		run.Nontrivial(model)
+	}
+	if err == nil && parseErr == nil && run.Evaluations%8 == 0 {
+		docCase(stored)
 	}
 	if err == nil {
 		run.Sample(map[string]any{"fn": sp.Fn, "target": sp.Target, "artifactType": sp.AT, "descriptor": desc, "events": len(rec.events)})
@@ -1509,4 +1552,42 @@ func nameClash(sp *spec) bool {
 		}
 	}
 	return sp.Config != nil && taken(*sp.Config)
+}
+
+// docCase: what encoding/json reads as mediaType / artifactType of a stored manifest document, against the
+// model's readers of the document head (doc_media_type, doc_artifact_type) on the same bytes.
+func docCase(stored []byte) {
+	id := run.NewID()
+	var top map[string]json.RawMessage
+	obs := "ERR"
+	if json.Unmarshal(stored, &top) == nil {
+		field := func(k string) string {
+			raw, ok := top[k]
+			if !ok {
+				return "NONE"
+			}
+			var v string
+			if json.Unmarshal(raw, &v) != nil {
+				return "ERR"
+			}
+			return common.Hex(v)
+		}
+		cfg := "NONE"
+		if raw, ok := top["config"]; ok {
+			var c struct {
+				MediaType string `json:"mediaType"`
+				Digest    string `json:"digest"`
+				Size      int64  `json:"size"`
+			}
+			if json.Unmarshal(raw, &c) == nil {
+				if c.Size < 0 {
+					c.Size = 0 // the model's reader takes the run of digits after "size": (none for a negative number)
+				}
+				cfg = fmt.Sprintf("%s:%s:%d", common.Hex(c.MediaType), common.Hex(c.Digest), c.Size)
+			}
+		}
+		obs = field("mediaType") + " " + field("artifactType") + " " + cfg
+	}
+	run.Case(id, "D "+common.Hex(string(stored)), obs)
+	run.Count("document_head")
 }
